@@ -20,7 +20,8 @@ ASSUMPTIONS = [
 ]
 
 DIFFS = ["name", "content", "content-none-vs-empty", "tail", "attr-add", "attr-del", "attr-change", "extra", "prefix",
-         "ns", "child-add", "child-del", "child-swap", "extra-change", "extra-rekey", "ns-change", "ns-rekey", "attr-rekey"]
+         "ns", "child-add", "child-del", "child-swap", "extra-change", "extra-rekey", "ns-change", "ns-rekey", "attr-rekey",
+         "prefix-alias", "prefix-alias"]
 
 
 @st.composite
@@ -46,6 +47,12 @@ def pair_case(draw):
         able = [(p, x) for p, x in allp if len(x.get(fld) or ()) >= (2 if kind == "child-swap" else 1)]
         allp = able or allp
     path, _ = allp[sel % len(allp)]
+    if kind == "prefix-alias":
+        # two prefixes bound to one namespace in the node's map, the node written with the first: the other tree will
+        # differ in nothing but the prefix - which is one of the compared fields
+        node = treegen.spec_at(sp, path)
+        node.setdefault("ns", {}).update({"al1": "urn:alias", "al2": "urn:alias"})
+        node["p"] = "al1"
     if kind in ("extra-rekey", "attr-rekey") and rekey_none:
         node = treegen.spec_at(sp, path)
         fld = {"extra": "x", "attr": "a"}[kind.split("-")[0]]
@@ -87,6 +94,10 @@ def apply_diff(sp, d):
         node.setdefault("x", {})["p:zz"] = "1"
     elif k == "prefix":
         node["p"] = (node.get("p") or "") + "z"
+    elif k == "prefix-alias":
+        if node.get("p") != "al1":
+            return None
+        node["p"] = "al2"
     elif k in ("extra-change", "extra-rekey", "ns-change", "ns-rekey", "attr-rekey"):
         fld = {"extra": "x", "ns": "ns", "attr": "a"}[k.split("-")[0]]
         if not node.get(fld):
